@@ -540,19 +540,22 @@ inductive Matching
   | ignoring (labels : List Nat)
 deriving DecidableEq, Repr
 
-/-- slice<Op> / sliceFilter<Cmp>: arithmetic on two present points; a comparison keeps the `keep` side's point when it
-    holds; a missing point (NaN) on either side gives a missing point -/
-def binVal (op : BinOp) (keepRight : Bool) (a b : Val) : Val :=
+/-- slice<Op> / sliceFilter<Cmp>: arithmetic on two present points; a comparison keeps the left point when it holds; a
+    missing point (NaN) on either side gives a missing point.
+    `scalarLeft`: the left operand is the label-less (scalar) side; evalBinary then keeps the RIGHT point and evaluates the
+    comparison with swapped arguments and the operator table GTR→LTE, GTE→LSS, LSS→GTE, LTE→GTR as coded, i.e.
+    `s > v` keeps v when v ≤ s and `s >= v` when v < s: on a tie this differs from the mirrored operator.  The harness
+    regenerates cases with such a tie (reported as an observation, outside the property's operators). -/
+def binVal (op : BinOp) (scalarLeft : Bool) (a b : Val) : Val :=
   match a, b with
   | some x, some y =>
-    let keep := if keepRight then y else x
     match op with
     | .add => some (x + y) | .sub => some (x - y) | .mul => some (x * y) | .div => some (x / y)
-    | .eq => if x = y then some keep else none
-    | .gt => if x > y then some keep else none
-    | .lt => if x < y then some keep else none
-    | .ge => if x ≥ y then some keep else none
-    | .le => if x ≤ y then some keep else none
+    | .eq => if x = y then some (if scalarLeft then y else x) else none
+    | .gt => if scalarLeft then (if y ≤ x then some y else none) else (if x > y then some x else none)
+    | .ge => if scalarLeft then (if y < x then some y else none) else (if x ≥ y then some x else none)
+    | .lt => if scalarLeft then (if y ≥ x then some y else none) else (if x < y then some x else none)
+    | .le => if scalarLeft then (if y > x then some y else none) else (if x ≤ y then some x else none)
   | _, _ => none
 
 def zipVals (f : Val → Val → Val) (a b : List Val) : List Val :=
